@@ -124,6 +124,10 @@ func (ob *Obligation) counts(prop string, safety bool) bool {
 	if ob.Canary {
 		return false
 	}
+	// tagged obligations belong to the named properties; `cfg` marks preconditions about the caller's configuration, which
+	// are assumptions of the whole analysis (listed in the evidence) and are not owed at call sites inside the library;
+	// untagged preconditions (`requires label: ...`) are about arguments the library computes itself and are owed by
+	// every caller in every check
 	if len(ob.Tags) > 0 {
 		for _, t := range ob.Tags {
 			if t == prop {
@@ -352,6 +356,8 @@ func cmdCheck(args []string) {
 		for _, ob := range u.obs {
 			if ob.Canary || ob.counts(*prop, us.Safety) {
 				obs = append(obs, ob)
+			} else {
+				ob.Unchecked = true
 			}
 		}
 	}
